@@ -138,6 +138,143 @@ theorem lex_error_at_construct_start (input : Bytes) (exprMode : Bool) (is : Lis
     · exact Or.inl (byteAt_some (v := 46) (by decide) h)
     · exact Or.inr (byteAt_some (v := 63) (by decide) h)
 
+
+/-! ### WHERE an error stands: the table
+
+  An error `err pos` of `parse.SoyFile` is about ONE token `it` of the lexer's stream for this input:
+
+  | the token `it`                       | `pos`                                                        |
+  |--------------------------------------|--------------------------------------------------------------|
+  | the lexer's Error item (the last one)| where the lexer put it — by class (`lex_error_at_construct_start`): the opening delimiter of the construct that is never closed (`{`, the quote, `/*`, `/**`), the `.` / `?` before a bad name; for the class-less errors of `errorf`, behind the character the scanner stopped at |
+  | a token the parser rejects           | `it.pos` — the END of that token (`unexpected(tok)`, `errorf` at the current token, `errorfAt(node position)`: nodes are positioned at the end of their first token) |
+  | stray TEXT between the params of a {call} / the cases of a {switch} | the first character of that Text token that is not a space, tab, CR or LF (`atTextStart`, /repo ac1c871) — not the token's end, which lies behind the line breaks and the indentation that follow the text |
+
+  `lineNumber input pos` = 1 + the number of LF bytes before `pos`: the line ON WHICH THE BYTE AT `pos`
+  STANDS (`lineNumber_eq`, `lineNumber_succ_of_ne`).  So the reported line is the line of the
+  opening delimiter (row 1), of the first non-blank character of the stray text (row 3), and in
+  row 2 the line on which the rejected token ENDS — the line of the whole token unless it spans a
+  line break (only Text, comment, soydoc and string tokens can). -/
+
+/-- the table, rows 2 and 3: the token and the position -/
+theorem parse_error_position_table (pf : Bytes → Option UInt64) (input : Bytes) (pos : Nat)
+    (h : parseSource pf input = .error (.err pos)) :
+    ∃ is, Lex.lexAll input false = .items is ∧ ∃ it ∈ is,
+      it.pos = pos ∨
+      (it.typ = .tText ∧ ∃ i, ∃ _ : i < it.val.length, pos = it.pos + i - it.val.length ∧
+        (it.val[i] ≠ 32 ∧ it.val[i] ≠ 9 ∧ it.val[i] ≠ 13 ∧ it.val[i] ≠ 10) ∧
+        ∀ j (_ : j < i), it.val[j] = 32 ∨ it.val[j] = 9 ∨ it.val[j] = 13 ∨ it.val[j] = 10) := by
+  obtain ⟨is, hl, it, hm, hat⟩ := err_at_token pf input pos h
+  refine ⟨is, hl, it, hm, ?_⟩
+  rcases hat with hp | ⟨htx, hp⟩
+  · exact Or.inl hp
+  · rcases Lemmas.ParserSafe.atTextStart_spec it with ⟨i, hi, he, hnb, hb⟩ | ⟨he, _⟩
+    · exact Or.inr ⟨htx, i, hi, by rw [← hp, he], hnb, hb⟩
+    · exact Or.inl (by rw [← hp, he])
+
+/-- row 3 in terms of the INPUT: the Text token is the piece `input[s .. it.pos)`, the reported
+    position lies inside it, the byte there is not a space / tab / CR / LF, and every byte of the
+    token in front of it is one — the error stands at the first visible character of the stray text -/
+theorem stray_text_error_at_first_visible (input : Bytes) (is : List Item) (it : Item) (pos : Nat)
+    (hl : Lex.lexAll input false = .items is) (hm : it ∈ is) (htx : it.typ = .tText)
+    (hne : it.pos ≠ pos) (hat : Lemmas.ParserSafe.ErrAt it pos) :
+    ∃ s, s ≤ pos ∧ pos < it.pos ∧ it.pos ≤ input.length ∧ it.val = (input.drop s).take (it.pos - s) ∧
+      (∃ b, input[pos]? = some b ∧ b ≠ 32 ∧ b ≠ 9 ∧ b ≠ 13 ∧ b ≠ 10) ∧
+      ∀ j, s ≤ j → j < pos → input[j]? = some 32 ∨ input[j]? = some 9 ∨ input[j]? = some 13 ∨ input[j]? = some 10 := by
+  obtain ⟨is', hl', ⟨e, hlast, hend⟩, _, _, _⟩ := lex_items input false
+  rw [hl] at hl'
+  simp only [Lex.LexResult.items.injEq] at hl'
+  subst hl'
+  have hd : it ∈ is.dropLast := by
+    obtain ⟨ys, hys⟩ := List.getLast?_eq_some_iff.mp hlast
+    rw [hys] at hm ⊢
+    simp only [List.dropLast_concat]
+    rcases List.mem_append.mp hm with h | h
+    · exact h
+    · simp only [List.mem_singleton] at h
+      rw [← h, htx] at hend
+      rcases hend with h | h <;> exact absurd h (by decide)
+  obtain ⟨hlen, hb, hs⟩ := lex_items_slice input false is hl it hd
+  have hget : ∀ j (hj : j < it.val.length), input[it.pos - it.val.length + j]? = some it.val[j] := by
+    intro j hj
+    have h1 : it.val[j]? = ((input.drop (it.pos - it.val.length)).take it.val.length)[j]? :=
+      congrArg (·[j]?) hs
+    rw [List.getElem?_eq_getElem hj] at h1
+    rw [h1, List.getElem?_take, if_pos hj, List.getElem?_drop]
+  rcases hat with hp | ⟨_, hp⟩
+  · exact absurd hp hne
+  rcases Lemmas.ParserSafe.atTextStart_spec it with ⟨i, hi, he, hnb, hbl⟩ | ⟨he, _⟩
+  · have hpos : pos = it.pos - it.val.length + i := by rw [← hp, he]; omega
+    refine ⟨it.pos - it.val.length, by omega, by omega, hb, ?_, ⟨it.val[i], ?_, hnb⟩, ?_⟩
+    · rw [show it.pos - (it.pos - it.val.length) = it.val.length by omega]; exact hs
+    · rw [hpos]; exact hget i hi
+    · intro j h1 h2
+      have hj : j - (it.pos - it.val.length) < i := by omega
+      have := hget (j - (it.pos - it.val.length)) (by omega)
+      rw [show it.pos - it.val.length + (j - (it.pos - it.val.length)) = j by omega] at this
+      rw [this]
+      rcases hbl _ hj with h | h | h | h <;> simp [h]
+  · exact absurd (by rw [← hp, he]) hne
+
+/-- row 2: a rejected token is reported at its END; when no line break stands inside the token
+    (always, but for Text, comment, soydoc and string tokens) that is the line on which it BEGINS -/
+theorem token_line_begin (input : Bytes) (is : List Item) (it : Item)
+    (hl : Lex.lexAll input false = .items is) (hd : it ∈ is.dropLast) (hnl : ∀ b ∈ it.val, b ≠ 10) :
+    lineNumber input it.pos = lineNumber input (it.pos - it.val.length) := by
+  obtain ⟨hlen, _, hs⟩ := lex_items_slice input false is hl it hd
+  unfold lineNumber
+  have h1 : input.take it.pos = input.take (it.pos - it.val.length) ++ it.val := by
+    conv => rhs; rhs; rw [hs]
+    rw [← List.take_add]
+    congr 1; omega
+  rw [h1, List.filter_append, List.length_append]
+  have : it.val.filter (· == 10) = [] := by
+    rw [List.filter_eq_nil_iff]
+    intro b hb
+    simpa using hnl b hb
+  rw [this]; rfl
+
+/-- row 1: when the token is an Error item it is the lexer's last item, positioned by its class -/
+theorem parse_error_at_lex_error (input : Bytes) (is : List Item) (e : Item)
+    (hl : Lex.lexAll input false = .items is) (hm : e ∈ is) (ht : e.typ = .tError) :
+    is.getLast? = some e ∧
+    (e.val = [Lex.clsTag] ∨ e.val = [Lex.clsLiteral] → e.pos = 0 ∨ input[e.pos]? = some 123) ∧
+    (e.val = [Lex.clsString] → input[e.pos]? = some 34 ∨ input[e.pos]? = some 39) ∧
+    (e.val = [Lex.clsComment] → input[e.pos]? = some 47 ∧ input[e.pos + 1]? = some 42) ∧
+    (e.val = [Lex.clsSoyDoc] → input[e.pos]? = some 47 ∧ input[e.pos + 1]? = some 42 ∧ input[e.pos + 2]? = some 42) ∧
+    (e.val = [Lex.clsName] → input[e.pos]? = some 46 ∨ input[e.pos]? = some 63) := by
+  obtain ⟨is', hl', _, _, hok, _⟩ := lex_items input false
+  rw [hl] at hl'
+  simp only [Lex.LexResult.items.injEq] at hl'
+  subst hl'
+  have hlast : is.getLast? = some e := by
+    cases hne : is.getLast? with
+    | none => simp [List.getLast?_eq_none_iff] at hne; subst hne; simp at hm
+    | some x =>
+      have hsplit : is = is.dropLast ++ [x] := by
+        obtain ⟨ys, hys⟩ := List.getLast?_eq_some_iff.mp hne
+        rw [hys]; simp
+      rw [hsplit] at hm
+      rcases List.mem_append.mp hm with hd | hx
+      · have := hok e hd
+        simp only [Lex.itemOK, Lex.notEnd, ht, Bool.and_eq_true] at this
+        exact absurd this.2 (by decide)
+      · simp at hx; rw [hx]
+  exact ⟨hlast, lex_error_at_construct_start input false is e hl hlast ht⟩
+
+/-- `lineNumber input pos` is the line on which the byte at `pos` stands: 1 + the LF bytes before it -/
+theorem lineNumber_eq (input : Bytes) (pos : Nat) :
+    lineNumber input pos = 1 + ((input.take pos).filter (· == 10)).length := rfl
+
+/-- … it moves to the next line exactly behind a LF byte -/
+theorem lineNumber_succ (input : Bytes) (pos : Nat) (h : pos < input.length) :
+    lineNumber input (pos + 1) = lineNumber input pos + (if input[pos] = 10 then 1 else 0) := by
+  unfold lineNumber
+  rw [List.take_add_one, List.getElem?_eq_getElem h]
+  simp only [Option.toList_some, List.filter_append, List.length_append]
+  by_cases hb : input[pos] = 10
+  · simp [hb]; omega
+  · simp [hb]
+
 /-- in file mode an unclosed tag is never reported at 0 unless a `{` stands there -/
 theorem lex_unclosed_tag_at_brace (input : Bytes) (is : List Item) (e : Item)
     (h : Lex.lexAll input false = .items is) (hl : is.getLast? = some e) (ht : e.typ = .tError)
